@@ -63,11 +63,12 @@ def _case(draw):
         case["edit"] = draw(st.sampled_from(["mirror", "calm", "speed", "direction", "until", "redisplay", "redisplay"]))
         case["unit"] = draw(st.sampled_from(["Meter", "Yard", "Kilometer", "Inch", "Mile", "Centimeter"]))
         case["val"] = draw(st.floats(0.0, 1.0))
+    case["prior"] = draw(gen.prior())
     return case
 
 
 def _run(case, spec, shot_obj=None):
-    calc = build.calculator({"max_calc_step_size_feet": case["h"]})
+    calc = build.calculator({"max_calc_step_size_feet": case["h"]}, prior=case.get("prior"))
     sh = shot_obj if shot_obj is not None else build.shot(spec)
     rows, err = build.fire(calc, sh, case["R"], case["step"])
     return build.rows_raw(rows), err
